@@ -32,7 +32,15 @@ func (impl Implementation) Dlas2(f, g, h float64) (ssmin, ssmax float64) {
 		at := (fhmax - fhmin) / fhmax
 		au := (ga / fhmax) * (ga / fhmax)
 		c := 2 / (math.Sqrt(as*as+au) + math.Sqrt(at*at+au))
-		return fhmin * c, fhmax / c
+		ssmin = fhmin * c
+		ssmax = fhmax / c
+		if ssmin > ssmax {
+			// When fhmin and fhmax agree to a few ulps and ga is
+			// negligible, c rounds to a value slightly greater than
+			// one and the two results cross.
+			ssmin, ssmax = ssmax, ssmin
+		}
+		return ssmin, ssmax
 	}
 	au := fhmax / ga
 	if au == 0 {
